@@ -29,11 +29,15 @@
                                      first crosses V2 while the others' wire forms are produced again
         observed (1 #wa #wb #wc Q)
      (10 seed goroutines iters)      concurrent stress evaluated in Go       observed (10 code)
-     (5 codec hdr gov registered valid)   through codec V<codec> (no compression, no cipher),
+     (12 codec cmd mode arg)         qnet.RequestProtoMessage over a pipe against a server that answers
+                                     through its bound endpoint: mode 0 Refuse(code) 1 ReplyWith(cmd, proto)
+                                     2 RefuseWith(cmd+1, code)     observed (1 #response) | (0 #error text) | (9)
+     (5 codec hdr gov registered valid validS)   through codec V<codec> (no compression, no cipher),
                                      then Decode() on the receiver; registered = a message type
                                      is registered under hdr's command, valid = proto.Unmarshal
                                      accepts the payload for it (both answered by the harness)
-        observed (1 ok body) | (0)
+        observed (1 ok body dt) | (0)    dt = DecodeTo(&StringValue{}) before Decode(): (1 #msg) | (0) error | (2) panic;
+                                     validS = proto.Unmarshal accepts the payload for StringValue
    In scenario 4, mode 2 (Refuse) and mode 3 (Reply(ack), arg = gov) consult the message registry;
    its answer (paired ack id / id of the ack's type, 0 = none) travels in the command slot.
    gov  = (0) nil | (1 ikind v) | (2 b) | (3 bits32 wide) | (4 bits64) | (5 #str) | (6 #bytes wide)
@@ -50,6 +54,9 @@ Import ListNotations.
 Open Scope Z_scope.
 
 Definition zlist_eqb := list_eqb Z.eqb.
+(* "message " and " has error: " (qnet/util.go ReadProtoMessage) *)
+Definition ascii_msg1 : list Z := [109; 101; 115; 115; 97; 103; 101; 32].
+Definition ascii_msg2 : list Z := [32; 104; 97; 115; 32; 101; 114; 114; 111; 114; 58; 32].
 Definition zs (b : list N) : list Z := map Z.of_N b.
 
 Definition ikind_of (z : Z) : option ikind :=
@@ -209,14 +216,14 @@ Definition check_body (g : gov) (wide : Z) (ob : option body)
 Definition no_oracle (wide : Z) : oracles :=
   go_oracles (fun _ => wide) (fun _ => 0) (fun _ => []) (fun _ => None) (fun _ => []).
 
-Definition check_wire (codec thr : Z) (enc : bool) (h : hdr) (ec : option Z) (g : gov) (wide : Z)
+Definition check_wire (codec thr : Z) (enc dec : bool) (h : hdr) (ec : option Z) (g : gov) (wide : Z)
            (obs : option (hdr * option body * Z * option (list Z) * option (hdr * option body) * option (hdr * option body))) : verdict :=
   let p0 := pkt_of_hdr h BNil None in
   let p := match ec with
            | Some e => set_errno e p0
            | None => with_body p0 (set_body (no_oracle wide) g)
            end in
-  let m := if codec =? 1 then wire_v1 tag_coders thr enc enc p else wire_v2 tag_coders thr enc enc p in
+  let m := if codec =? 1 then wire_v1 tag_coders thr enc dec p else wire_v2 tag_coders thr enc dec p in
   match m, obs with
   | None, None => VOk
   | Some _, None =>
@@ -225,9 +232,9 @@ Definition check_wire (codec thr : Z) (enc : bool) (h : hdr) (ec : option Z) (g 
       match ec with Some _ => VPropFail 4 | None => VPropFail 3 end
   | Some q, Some (oh, ob, oerrno, oresend, ofwd, oclone) =>
       (* the decoded packet sent on again through the same codec *)
-      let m2 := if codec =? 1 then wire_v1 tag_coders thr enc enc q else wire_v2 tag_coders thr enc enc q in
+      let m2 := if codec =? 1 then wire_v1 tag_coders thr enc dec q else wire_v2 tag_coders thr enc dec q in
       (* ... and a Clone() of it sent on instead *)
-      let m3 := if codec =? 1 then wire_v1 tag_coders thr enc enc (clone q) else wire_v2 tag_coders thr enc enc (clone q) in
+      let m3 := if codec =? 1 then wire_v1 tag_coders thr enc dec (clone q) else wire_v2 tag_coders thr enc dec (clone q) in
       let arrives_as := fun (o : option (hdr * option body)) =>
         match o with
         | Some (oh2, ob2) => hdr_eqb oh oh2 &&
@@ -493,11 +500,11 @@ Definition check (c : sx) : verdict :=
             end in
           match obs', what with
           | Some obs', SList [SInt 0; SInt ec] =>
-              if (codec =? 1) || (codec =? 2) then check_wire codec thr (negb (enc =? 0)) h (Some ec) GNil 0 obs' else VBad
+              if (codec =? 1) || (codec =? 2) then check_wire codec thr (negb (enc =? 0)) (enc =? 1) h (Some ec) GNil 0 obs' else VBad
           | Some obs', SList [SInt 1; g] =>
               match gov_of g with
               | Some (g, wide) =>
-                  if (codec =? 1) || (codec =? 2) then check_wire codec thr (negb (enc =? 0)) h None g wide obs' else VBad
+                  if (codec =? 1) || (codec =? 2) then check_wire codec thr (negb (enc =? 0)) (enc =? 1) h None g wide obs' else VBad
               | None => VBad
               end
           | _, _ => VBad
@@ -554,7 +561,7 @@ Definition check (c : sx) : verdict :=
           end
       | None => VBad
       end
-  | SList [SList [SInt 5; SInt codec; h; g; SInt registered; SInt valid]; obs] =>
+  | SList [SList [SInt 5; SInt codec; h; g; SInt registered; SInt valid; SInt valids]; obs] =>
       match hdr_of h, gov_of g with
       | Some h, Some (g, wide) =>
           let p := with_body (pkt_of_hdr h BNil None) (set_body (no_oracle wide) g) in
@@ -562,10 +569,24 @@ Definition check (c : sx) : verdict :=
                    else wire_v2 tag_coders 8192 false false p in
           match w, obs with
           | None, SList [SInt 0] => VOk
-          | Some q, SList [SInt 1; SInt ok; ob] =>
+          | Some q, SList [SInt 1; SInt ok; ob; dt] =>
               match body_of ob with
               | Some ob =>
                   let d := decode (negb (registered =? 0)) (negb (valid =? 0)) q in
+                  (* DecodeTo(&StringValue{}): nil error iff the model says so; a StringValue sent
+                     without the error flag comes out as the same message *)
+                  let dt_ok := match dt with
+                               | SList [SInt 1; SBytes _] => decode_to (negb (valids =? 0)) q
+                               | SList [SInt 0] => negb (decode_to (negb (valids =? 0)) q)
+                               | _ => false
+                               end in
+                  let dt_same := match g, dt with
+                                 | GProto m, SList [SInt 1; SBytes m'] =>
+                                     if negb (has_flag (hflg h) root_PFlagError) && negb (valids =? 0)
+                                     then zlist_eqb m (zs m') else true
+                                 | _, _ => true
+                                 end in
+                  let corr0 := check_that dt_ok (VMismatch 30) in
                   let corr :=
                     match d with
                     | Some q' => vjoin (check_that (ok =? 1) (VMismatch 18))
@@ -582,12 +603,30 @@ Definition check (c : sx) : verdict :=
                         else VOk
                     | _ => VOk
                     end in
-                  vjoin prop corr
+                  vjoin (vjoin prop (check_that dt_same (VPropFail 3))) (vjoin corr corr0)
               | None => VBad
               end
           | _, _ => VMismatch 10
           end
       | _, _ => VBad
+      end
+  (* scenario 12: qnet.RequestProtoMessage against a server that refuses / replies through its
+     bound endpoint, over a pipe: (12 codec cmd mode arg) -> (1 #response) | (0 #error text) | (9) *)
+  | SList [SList [SInt 12; SInt codec; SInt cmd; SInt mode; arg]; obs] =>
+      let msg := fun c e => ascii_msg1 ++ format_int c ++ ascii_msg2 ++ format_int e in
+      match mode, arg, obs with
+      | 1, g, SList [SInt 1; SBytes m'] =>
+          match gov_of g with
+          | Some (GProto m, _) => check_that (zlist_eqb m (zs m')) (VPropFail 6)
+          | _ => VBad
+          end
+      | 1, _, _ => VPropFail 6
+      | _, SInt ec, SList [SInt 0; SBytes t] =>
+          (* a positive code is what the caller is told; other codes are not errors to this helper *)
+          if 0 <? ec then check_that (zlist_eqb (zs t) (msg (if mode =? 0 then cmd else cmd + 1) ec)) (VPropFail 4)
+          else VOk
+      | _, SInt ec, SList [SInt 1; SBytes _] => check_that (ec <=? 0) (VPropFail 4)
+      | _, _, _ => VPropFail 4
       end
   | _ => VBad
   end.
